@@ -27,7 +27,7 @@ import gen
 import gr2
 import harness
 
-THEOREMS = ["Grc.Eng.runPass_no_rules", "Grc.Eng.trialOrder_perm", "Grc.Eng.trialOrder_sorted", "Grc.Sem.dstep_sound", "Grc.Sem.decomp_sound", "Grc.Sem.decomp_value", "Grc.Sem.noDiv_total", "Grc.Sem.evalS_fold", "Grc.Sem.evalS_foldC",
+THEOREMS = ["Grc.Eng.runPass_no_rules", "Grc.Eng.scanStep_no_match", "Grc.Eng.runPassE_no_match", "Grc.Eng.trialOrder_perm", "Grc.Eng.trialOrder_sorted", "Grc.Sem.dstep_sound", "Grc.Sem.decomp_sound", "Grc.Sem.decomp_value", "Grc.Sem.noDiv_total", "Grc.Sem.evalS_fold", "Grc.Sem.evalS_foldC",
             "Grc.Sem.decode_encode", "Grc.Sem.wrap32_id"]
 
 OPTS = [["-p"], [], ["-v3", "-p"], ["-v5"], ["-c"], ["-v2", "-p"]]
